@@ -7,6 +7,7 @@ from . import common
 
 def main():
     common.ensure_built()
+    common.ensure_native()
     nat = os.path.join(common.VERIF, 'native')
     mk = os.path.join(nat, 'build.sh')
     if os.path.exists(mk):
